@@ -1039,6 +1039,8 @@ class Path:
         for (u, v) in ((a, b), (b, a)):
             if is_z3(u):
                 sh = T.shl.get(u.get_id())
+                if sh is None and theory.is_app_of(u, theory.pow2):
+                    sh = (1, u.arg(0))          # (1 << k) | v
                 if sh is not None:
                     k = sh[1]
                     vv = as_z3int(v)
